@@ -2747,6 +2747,14 @@ def inline_math_comprehensions(source: str) -> str:
 
             use = uses.pop()
 
+            # The value is computed a second time where it is inlined: nothing in it may have an
+            # effect or give something else the second time it is called.
+            if any(
+                not core.match_template(node, ast.Call(func=ast.Name(id=harmless_functions)))
+                for node in core.walk(value, mutation_template)
+            ):
+                continue
+
             _, set_end_charno = core.get_charnos(value, source)
             use_start_charno, _ = core.get_charnos(use, source)
 
